@@ -596,7 +596,17 @@ fn take<E: Elem>(vals: &mut Vec<Val<E>>, i: usize) -> Val<E> {
 #[allow(clippy::too_many_arguments)]
 fn exec<E: Elem>(op: &str, vals: &mut Vec<Val<E>>, forms: &[String], arg: i64, mut elems: Vec<E>, n: usize, okind: &str, ctx: &CbCtx, st: &J) -> Outcome<E> {
     let bad = || -> ! { panic!("HARNESS: operand kind mismatch for {}", op) };
-    let uarg = if arg < 0 { 0usize } else if arg >= i32::MAX as i64 { usize::MAX } else { arg as usize };
+    // 2^31 - 1 stands for usize::MAX; 2_000_000_000 + j stands for 2^32 + j (an index whose low 32 bits look valid):
+    // the specification's integers are 32-bit, and for it both are simply "beyond every length"
+    let uarg = if arg < 0 {
+        0usize
+    } else if arg >= i32::MAX as i64 {
+        usize::MAX
+    } else if arg >= 2_000_000_000 {
+        (1usize << 32) + (arg - 2_000_000_000) as usize
+    } else {
+        arg as usize
+    };
     match op {
         // ---- sequence operations ------------------------------------------------------
         "append" => Outcome::outs([op_append(take(vals, 0), elems.pop().unwrap())]),
